@@ -130,8 +130,10 @@ def conditional_part(ck, tier):
                 lo[i], hi[i] = cm[i] - sd[i] * rng.uniform(20, 60), cm[i] + sd[i] * rng.uniform(20, 60)
             elif mode == 1:    # bounds cut one tail
                 lo[i], hi[i] = cm[i] - sd[i] * rng.uniform(0.5, 2), cm[i] + sd[i] * rng.uniform(6, 12)
-            elif mode == 4:    # very wide bounds (1e4 .. 1e6 conditional widths): met only through the conditioning coordinate
-                lo[i], hi[i] = cm[i] - sd[i] * 10.0 ** rng.uniform(4, 6), cm[i] + sd[i] * 10.0 ** rng.uniform(4, 6)
+            elif mode == 4:    # very wide bounds (1e4 .. 1e8 conditional widths): met only through the conditioning coordinate
+                # (one side sweeps the decades 1e4 .. 1e8 in turn, so that every run meets the widest ones)
+                e_hi = 4.0 + ((case // 5 + i) % 5) - rng.uniform(0.0, 0.2) + (0.2 if (case // 5 + i) % 5 == 0 else 0.0)
+                lo[i], hi[i] = cm[i] - sd[i] * 10.0 ** rng.uniform(4, 8), cm[i] + sd[i] * 10.0 ** e_hi
             elif mode == 2:    # bounds cut both tails
                 lo[i], hi[i] = cm[i] - sd[i] * rng.uniform(1, 3), cm[i] + sd[i] * rng.uniform(1, 3)
             else:
@@ -169,7 +171,9 @@ def conditional_part(ck, tier):
             a_true = max(lo[i], cm[i] - sd[i] * math.sqrt(2 * math.log(100.0)))
             b_true = min(hi[i], cm[i] + sd[i] * math.sqrt(2 * math.log(100.0)))
             tol = 1e-6 * (hi[i] - lo[i])
-            covers = bool(x[0] <= a_true + tol and x[-1] >= b_true - tol)
+            # (coverage judged in units of the conditional's own width: with very wide bounds a slack relative to the bounds would be vacuous)
+            ctol = min(tol, 1e-3 * sd[i] + 1e-12 * (hi[i] - lo[i]))
+            covers = bool(x[0] <= a_true + ctol and x[-1] >= b_true - ctol)
             j = int(np.argmax(p))
             with np.errstate(all="ignore"):
                 ratio = p / p[j]
